@@ -234,6 +234,8 @@ impl InnerLocustDB {
     }
 
     pub fn ingest_efficient(&self, mut events: EventBuffer) {
+        #[cfg(feature = "verif")]
+        crate::verif::hooks::sync_point("ingest:begin");
         let (wal_size, wal_condvar) = &self.wal_size;
         // Holding wal lock ensures single-threaded ingestion
         let mut wal_size = wal_size.lock().unwrap();
@@ -242,6 +244,8 @@ impl InnerLocustDB {
             wal_size = wal_condvar.wait(wal_size).unwrap();
         }
 
+        #[cfg(feature = "verif")]
+        crate::verif::hooks::sync_point("ingest:wal_locked");
         let mut _meta_tables_rows = vec![];
         let mut _new_column_rows = vec![];
         for (table, table_buffer) in &events.tables {
@@ -321,10 +325,14 @@ impl InnerLocustDB {
             table.ingest_homogeneous(columns);
         }
 
+        #[cfg(feature = "verif")]
+        crate::verif::hooks::sync_point("ingest:pushed");
         if let Some(jh) = bytes_written_join_handle {
             let bytes_written = jh.join().unwrap();
             *wal_size += bytes_written;
         }
+        #[cfg(feature = "verif")]
+        crate::verif::hooks::sync_point("ingest:wal_written");
         wal_condvar.notify_all();
     }
 
@@ -335,6 +343,8 @@ impl InnerLocustDB {
         log::info!("Commencing WAL flush");
         let mut tracer = SimpleTracer::default();
         let span_wal_flush = tracer.start_span("wal_flush");
+        #[cfg(feature = "verif")]
+        crate::verif::hooks::sync_point("wal_flush:begin");
 
         // Acquire wal_size lock to block creation of new WAL segments and modifications of open buffers,
         // record the range of unflushed WAL entries, freeze table buffers, and reset WAL size.
@@ -345,6 +355,8 @@ impl InnerLocustDB {
         {
             let (wal_size, wal_condvar) = &self.wal_size;
             let mut wal_size = wal_size.lock().unwrap();
+            #[cfg(feature = "verif")]
+            crate::verif::hooks::sync_point("wal_flush:wal_locked");
             unflushed_wal_ids = self
                 .storage
                 .as_ref()
@@ -360,9 +372,13 @@ impl InnerLocustDB {
             for table in &tables {
                 table.freeze_buffer();
             }
+            #[cfg(feature = "verif")]
+            crate::verif::hooks::sync_point("wal_flush:frozen");
             *wal_size = 0;
             wal_condvar.notify_all();
         }
+        #[cfg(feature = "verif")]
+        crate::verif::hooks::sync_point("wal_flush:wal_unlocked");
         tracer.end_span(span_freeze_buffers);
 
         // Iterate over all tables and create new partitions from frozen buffers.
@@ -386,6 +402,8 @@ impl InnerLocustDB {
                 compactions.push(compaction);
             }
         }
+        #[cfg(feature = "verif")]
+        crate::verif::hooks::sync_point("wal_flush:batched");
         tracer.end_span(span_batching);
 
         // Persist new partitions
@@ -393,6 +411,8 @@ impl InnerLocustDB {
             storage.persist_partitions(new_partitions, &mut tracer);
         }
 
+        #[cfg(feature = "verif")]
+        crate::verif::hooks::sync_point("wal_flush:persisted");
         // Write new segments from compactions to storage and apply compaction in-memory
         let span_compaction = tracer.start_span("compaction");
         let (tx, rx) = mpsc::channel();
@@ -427,15 +447,23 @@ impl InnerLocustDB {
         if let Some((compaction_tracer, _)) = longest_span {
             tracer.push_tracer(compaction_tracer);
         }
+        #[cfg(feature = "verif")]
+        crate::verif::hooks::sync_point("wal_flush:compacted");
         tracer.end_span(span_compaction);
 
         // Update metastore and clean up orphaned partitions and WAL segments
         if let Some(storage) = self.storage.as_ref() {
             storage.persist_metastore(unflushed_wal_ids.end, &mut tracer);
+            #[cfg(feature = "verif")]
+            crate::verif::hooks::sync_point("wal_flush:meta_persisted");
             storage.delete_orphaned_partitions(partitions_to_delete, &mut tracer);
+            #[cfg(feature = "verif")]
+            crate::verif::hooks::sync_point("wal_flush:orphans_deleted");
             storage.delete_wal_segments(unflushed_wal_ids, &mut tracer);
         }
 
+        #[cfg(feature = "verif")]
+        crate::verif::hooks::sync_point("wal_flush:end");
         tracer.end_span(span_wal_flush);
 
         log::info!("Completed WAL flush\n{}", tracer.summary());
@@ -516,13 +544,19 @@ impl InnerLocustDB {
     ) {
         let mut new_partition = None;
         let mut maybe_compaction = None;
+        #[cfg(feature = "verif")]
+        crate::verif::hooks::sync_point_at("flush_table_buffer:begin", table.name());
 
         if let Some(partition) = table.batch() {
+            #[cfg(feature = "verif")]
+            crate::verif::hooks::sync_point_at("flush_table_buffer:batched", table.name());
             let columns: Vec<_> = partition
                 .clone_column_handles()
                 .into_iter()
                 .map(|c| c.try_get().as_ref().unwrap().clone())
                 .collect();
+            #[cfg(feature = "verif")]
+            crate::verif::hooks::sync_point_at("flush_table_buffer:handles_cloned", table.name());
             let (metadata, subpartitions) = subpartition(&self.opts, columns);
             let mut subpartitions_by_last_column = BTreeMap::new();
             for (i, subpartition) in metadata.iter().enumerate() {
@@ -543,6 +577,8 @@ impl InnerLocustDB {
             maybe_compaction = Some((table.clone(), table.next_partition_id(), range, parts));
         }
 
+        #[cfg(feature = "verif")]
+        crate::verif::hooks::sync_point_at("flush_table_buffer:planned", table.name());
         (new_partition, maybe_compaction)
     }
 
@@ -558,6 +594,8 @@ impl InnerLocustDB {
         // - run query for each column, construct Column
         // - create subpartitions
         let mut tracer = SimpleTracer::default();
+        #[cfg(feature = "verif")]
+        crate::verif::hooks::sync_point_at("compact:begin", table.name());
 
         let span_load_column_names = tracer.start_span("load_column_names");
         if !table.columns_names_loaded() {
@@ -572,6 +610,8 @@ impl InnerLocustDB {
         let span_snapshot_partitions = tracer.start_span("snapshot_partitions");
         // TODO: ensure parts is sorted correctly
         let data = table.snapshot_parts(parts);
+        #[cfg(feature = "verif")]
+        crate::verif::hooks::sync_point_at("compact:parts_snapshotted", table.name());
         tracer.end_span(span_snapshot_partitions);
 
         let span_build_columns = tracer.start_span("build_columns");
@@ -653,6 +693,8 @@ impl InnerLocustDB {
             columns.push(builder.finalize(column));
             tracer.end_span(span_finalize_column);
         }
+        #[cfg(feature = "verif")]
+        crate::verif::hooks::sync_point_at("compact:built", table.name());
         tracer.end_span(span_build_columns);
 
         let span_subpartition = tracer.start_span("subpartition");
@@ -662,6 +704,8 @@ impl InnerLocustDB {
         // replace old partitions with new partition
         let span_compact_partitions = tracer.start_span("compact_partitions");
         table.compact(id, range.start, columns, parts);
+        #[cfg(feature = "verif")]
+        crate::verif::hooks::sync_point_at("compact:swapped", table.name());
         tracer.end_span(span_compact_partitions);
 
         // write new subpartitions to disk and update in-memory metastore
@@ -677,6 +721,8 @@ impl InnerLocustDB {
             );
             (table.name().to_string(), to_delete)
         });
+        #[cfg(feature = "verif")]
+        crate::verif::hooks::sync_point_at("compact:prepared", table.name());
         tracer.end_span(span_prepare_compact);
 
         (to_delete, tracer)
